@@ -101,7 +101,7 @@ fn run(ctx: &Ctx) {
     if !alloc::installed() {
         ctx.note("counting allocator not installed: heap bound not checked");
     }
-    let n = ctx.share(ctx.tier.pick(1_600_000, 20_000_000));
+    let n = ctx.share(ctx.tier.pick(1_600_000, 80_000_000));
     let strat = (input_strategy(12, true), proptest::option::weighted(0.4, feed_strategy()))
         .prop_map(|(input, feed)| Case { input, feed });
     ctx.run_cases("robustness", n, strat, check);
